@@ -68,9 +68,17 @@ void CaptureData::broadcast(const char *msg) { broadcasts++; keep(last, msg); }
 void CaptureData::chain(const char *msg)     { chains++;     keep(last, msg); }
 void CaptureData::forward(const char *)      { forwards++; }
 
+// The closure is 24 bytes: larger than std::function's in-place buffer, so the
+// functor lives on the heap (as an application callback with some state does)
+// and *copying* the std::function allocates, while calling it does not.
+static unsigned recursions;
 std::function<void(const char*, RtData&)> recur_into(const Ports *sub)
 {
-    return [sub](const char *msg, RtData &data) {
+    unsigned *count = &recursions;
+    const char *tag = "generated";
+    return [sub, count, tag](const char *msg, RtData &data) {
+        (void) tag;
+        ++*count;
         SNIP
         sub->dispatch(msg, data);
     };
